@@ -25,6 +25,16 @@ class _Ret(Exception):
     pass
 
 
+class NeedChoice(Exception):
+    """a condition on the scalar's text was met whose truth is not determined by the cell: both outcomes are explored"""
+
+    def __init__(self, what):
+        self.what = what
+
+
+RAWISH = ('raw', 'rawlower', 'rawmod', 'unk', 'concat', 'jsonstr')
+
+
 class Sym:
     def __init__(self, kind, *args):
         self.kind = kind
@@ -53,6 +63,9 @@ class Cell:
         self.depth = 0
         self.actions: List[Tuple] = []
         self.raised: Optional[str] = None
+        self.oracle: List[bool] = []
+        self.used = 0
+        self.choices: List[str] = []
 
     # ---- values -----------------------------------------------------------------------------------
     def ev(self, e: ast.AST, env: Dict[str, Any]):
@@ -120,11 +133,18 @@ class Cell:
                 return Sym('spaces')
             if isinstance(e.op, ast.Add) and isinstance(a, str) and isinstance(b, str):
                 return a + b
+            if isinstance(e.op, (ast.Add, ast.Mod)) and all(isinstance(x, str) or (isinstance(x, Sym) and x.kind in RAWISH)
+                                                            for x in (a, b)):
+                return Sym('concat', repr(a), repr(b))
             raise AnalysisError('emit_json: unsupported arithmetic %s' % ast.unparse(e))
         if isinstance(e, ast.Tuple) or isinstance(e, ast.List) or isinstance(e, ast.Set):
             return tuple(self.ev(x, env) for x in e.elts)
         if isinstance(e, ast.Compare):
             left = self.ev(e.left, env)
+            vals = [left] + [self.ev(r, env) for r in e.comparators]
+            if any(isinstance(x, Sym) and x.kind in RAWISH for x in vals) or any(
+                    isinstance(x, tuple) and any(isinstance(y, Sym) and y.kind in RAWISH for y in x) for x in vals):
+                return Sym('unk', ast.unparse(e))
             for op, r in zip(e.ops, e.comparators):
                 right = self.ev(r, env)
                 ok = self._cmp(op, left, right, e)
@@ -192,6 +212,17 @@ class Cell:
 
     def truth(self, v, e) -> bool:
         if isinstance(v, Sym):
+            inv = False
+            while v.kind == 'not':
+                v, inv = v.args[0], not inv
+            if v.kind == 'unk':
+                # a predicate on the text of the scalar: not determined by (event class, tag, state) - explore both outcomes
+                if self.used >= len(self.oracle):
+                    raise NeedChoice(ast.unparse(e))
+                b = self.oracle[self.used]
+                self.used += 1
+                self.choices.append('%s=%s' % (ast.unparse(e)[:40], b))
+                return b != inv
             raise AnalysisError('emit_json: branch on a run-time value: %s' % ast.unparse(e))
         return bool(v)
 
@@ -221,6 +252,15 @@ class Cell:
                 return Sym('exc', f.id)
             if f.id == 'str' and len(e.args) == 1:
                 return self.ev(e.args[0], env)
+            if f.id in ('any', 'all', 'len', 'ord', 'min', 'max', 'bool') and e.args:
+                # a pure function of the scalar text (e.g. all(c in SAFE for c in event.value)): unknown outcome
+                src = ast.unparse(e)
+                if '.value' in src:
+                    return Sym('unk', src)
+            if f.id == 'repr' and len(e.args) == 1:
+                v = self.ev(e.args[0], env)
+                if isinstance(v, Sym) and v.kind in RAWISH:
+                    return Sym('rawmod', 'repr')
             raise AnalysisError('emit_json: unsupported call %s' % ast.unparse(e)[:60])
         if isinstance(f, ast.Attribute):
             # self.<method>()
@@ -258,6 +298,11 @@ class Cell:
                     return Sym('rawlower')
                 if recv.kind == 'raw' and name in ('upper', 'strip', 'title', 'capitalize'):
                     return Sym('rawmod', name)
+                if recv.kind in RAWISH and (name.startswith('is') or name in ('startswith', 'endswith', 'find', 'count', 'index')):
+                    return Sym('unk', ast.unparse(e))
+                if recv.kind in RAWISH and name in ('replace', 'encode', 'decode', 'translate', 'format', 'join', 'lstrip', 'rstrip',
+                                                    'swapcase', 'casefold', 'expandtabs', 'zfill', 'center', 'ljust', 'rjust'):
+                    return Sym('rawmod', name)
                 if recv.kind == 'modattr' and recv.args == ('json', 'dumps'):
                     pass
             if isinstance(target, Sym) and target.kind == 'modattr' and target.args == ('json', 'dumps'):
@@ -289,6 +334,8 @@ class Cell:
                 return ('jsonstr', repr(arg), repr(ea))
             if v.kind in ('linebreak', 'spaces'):
                 return ('ws',)
+            if v.kind == 'concat':
+                return ('concat',) + v.args
         raise AnalysisError('emit_json: writes an unmodelled value: %s' % ast.unparse(e)[:60])
 
     # ---- statements -------------------------------------------------------------------------------
@@ -376,14 +423,26 @@ def extract(P: Program) -> Dict[Tuple[str, Optional[str], str], Dict[str, Any]]:
         tags = SCALAR_TAGS + ['custom'] if evc == 'ScalarEvent' else [None]
         for tag in tags:
             for s in states:
-                cell = Cell(P, evc, tag, s, states, bases)
-                env = {params[0]: Sym('self'), params[1]: Sym('event'), '__self_name__': params[0]}
-                try:
-                    cell.run(fi.node.body, env)
-                except Raised:
-                    pass
-                except _Ret:
-                    pass
-                table[(evc, tag, s)] = {'actions': cell.actions, 'stack': dict(cell.vis), 'depth': cell.depth,
-                                        'raised': cell.raised}
+                pending: List[List[bool]] = [[]]
+                variants = []
+                while pending:
+                    oracle = pending.pop()
+                    if len(oracle) > 6:
+                        raise AnalysisError('emit_json: more than 6 nested text-dependent conditions in one cell')
+                    cell = Cell(P, evc, tag, s, states, bases)
+                    cell.oracle = oracle
+                    env = {params[0]: Sym('self'), params[1]: Sym('event'), '__self_name__': params[0]}
+                    try:
+                        cell.run(fi.node.body, env)
+                    except NeedChoice:
+                        pending.append(oracle + [False])
+                        pending.append(oracle + [True])
+                        continue
+                    except Raised:
+                        pass
+                    except _Ret:
+                        pass
+                    variants.append({'actions': cell.actions, 'stack': dict(cell.vis), 'depth': cell.depth,
+                                     'raised': cell.raised, 'choices': list(cell.choices)})
+                table[(evc, tag, s)] = dict(variants[0], variants=variants)
     return table
